@@ -375,6 +375,9 @@ impl<'a> FnCx<'a> {
         if cond && !mat && arms[..arms.len() - 1].iter().any(|a| a.guard.is_none() && pat_irrefutable(&a.pat)) {
             return self.no(line, "`match` with arms after a catch-all arm");
         }
+        if cond && !mat && arms.iter().any(|a| or_binds(&a.pat)) {
+            return self.no(line, "`match` on integers: a binding inside an or-pattern");
+        }
         Ok((E::Match(Box::new(s), st, arms), ty.unwrap()))
     }
 
@@ -459,7 +462,15 @@ impl<'a> FnCx<'a> {
                 self.zt(t1, line, "an operand")?;
                 self.zt(t2, line, "an operand")
             }
-            E::Neg(x, t) | E::Not(x, t) => {
+            E::Neg(x, t) => {
+                self.zonk(x, line)?;
+                self.zt(t, line, "an operand")?;
+                if matches!(t, Ty::Int(_, false)) {
+                    return self.no(line, "unary `-` on an unsigned integer");
+                }
+                Ok(())
+            }
+            E::Not(x, t) => {
                 self.zonk(x, line)?;
                 self.zt(t, line, "an operand")
             }
@@ -504,6 +515,15 @@ impl<'a> FnCx<'a> {
                 self.zonk(b, line)
             }
         }
+    }
+}
+
+fn or_binds(p: &Pat) -> bool {
+    match p {
+        Pat::Or(v) => v.iter().any(|x| !pat_vars(x).is_empty() || or_binds(x)),
+        Pat::Tuple(v) | Pat::Ctor(_, _, v) => v.iter().any(or_binds),
+        Pat::SomeP(x) => or_binds(x),
+        _ => false,
     }
 }
 
